@@ -89,7 +89,10 @@ RegroupKey(cs, ps) ==
                 want == IF cs.slot = "a1p" THEN N4("call", "STR$", <<NormS(ExprOf(sins, slot))>>, "") ELSE NormS(ExprOf(sins, slot))
                 got0 == ExprOf(tins, slot)
                 \* an assignment whose right side was a convertible call is emitted as RUN f(args, Z)
-                got == NormT(got0, TempsOf(group)) IN
+                got1 == NormT(got0, TempsOf(group))
+                \* a numeric condition is emitted as  e <> 0.0 : that wrapper is not part of the expression
+                got == IF got1[1] = "bin" /\ got1[2] = "<>" /\ got1[4][1] = "num" /\ got1[4][2] = 0
+                          /\ ~(want[1] = "bin" /\ IsRelOp(want[2])) THEN got1[3] ELSE got1 IN
             IF want[1] = "nil" \/ got[1] = "nil" THEN "" ELSE Diff(want, got)
 \* does a convertible function occur inside the arguments of a built-in one?
 RECURSIVE ConvInBuiltin(_)
@@ -138,6 +141,7 @@ Verdict(cs) ==
                 sit == IF e[1] = "nil" THEN "" ELSE Situation(e) IN
        IF vd.clause = "parses" THEN [vd EXCEPT !.key = @ \o SrcSituation(cs, ps)]
        ELSE IF cs.slot = "a1p" /\ vd.clause = "obs" THEN vd
+       ELSE IF vd.clause \in {"temp-defined", "initial", "arity", "operand"} THEN vd
        ELSE LET rk == RegroupKey(cs, ps) IN
             IF rk = "" THEN vd
             ELSE [vd EXCEPT !.clause = "regroup", !.key = "regroup:" \o (IF sit # "" THEN "src=" \o sit ELSE rk), !.detail = rk \o " | " \o vd.key \o " | " \o @]
